@@ -131,6 +131,8 @@ type Exec struct {
 	deadlocked bool
 	// TeardownDeadlock is set when, after the controlled part, a goroutine could not acquire a mutex at all.
 	TeardownDeadlock string
+	// Unfinished lists the threads that were still running when the teardown gave up waiting for them.
+	Unfinished []string
 }
 
 var cur atomic.Pointer[Exec]
@@ -202,7 +204,7 @@ func (x *Exec) spawn(name string, fn func(), counted bool) *Thread {
 		defer func() {
 			// a panic in a goroutine of the code under test would take the process down: it is a
 			// violation of whatever is being checked, not a reason to lose the whole exploration
-			if r := recover(); r != nil {
+			if r := recover(); r != nil && !x.aborting.Load() {
 				x.mu.Lock()
 				if x.Violation == nil {
 					x.Violation = fmt.Errorf("panic in goroutine %s: %v\n%s", th.Name, r, stack())
@@ -258,7 +260,7 @@ func Gate(op *Op) {
 // freeGate is a gate during teardown: open.  A thread that keeps passing gates
 // forever (a spin loop in the code under test) is unwound so the bubble can end.
 func (x *Exec) freeGate() {
-	if n := x.freeGates.Add(1); n > 20000 {
+	if n := x.freeGates.Add(1); n > 20000 || x.aborting.Load() {
 		g := goid()
 		x.mu.Lock()
 		th := x.threads[g]
@@ -462,6 +464,11 @@ func (x *Exec) Thread(name string) *Thread { return x.byName[name] }
 
 // Done reports whether the named thread has finished.
 func (x *Exec) Done(name string) bool {
+	for _, u := range x.Unfinished {
+		if u == name {
+			return false
+		}
+	}
 	th := x.byName[name]
 	return th != nil && th.done
 }
@@ -757,8 +764,9 @@ func Run(t *testing.T, h *Harness, prefix []Choice) (res *Result) {
 	defer func() {
 		if r := recover(); r != nil {
 			fill()
-			if x != nil && x.deadlocked && res.Violation != nil {
-				// the bubble of a deadlocked execution ends with goroutines still blocked: expected
+			if x != nil && (x.deadlocked || len(x.Unfinished) > 0) && res.Violation != nil {
+				// the bubble of a deadlocked execution, or of one whose threads never finish, ends with
+				// goroutines still blocked: expected, and the violation has been recorded
 				cur.Store(nil)
 				return
 			}
@@ -860,6 +868,21 @@ func Run(t *testing.T, h *Harness, prefix []Choice) (res *Result) {
 			time.Sleep(x.Horizon + time.Hour)
 		}
 		synctest.Wait()
+		// Threads that are still not done after hours of virtual time with every gate open will never be:
+		// they are remembered (Done reports false for them), then unwound at their next gate so that the
+		// end-of-execution oracle can still run and judge them.
+		x.mu.Lock()
+		for _, th := range x.sortedThreads() {
+			if !th.done {
+				x.Unfinished = append(x.Unfinished, th.Name)
+			}
+		}
+		x.mu.Unlock()
+		if len(x.Unfinished) > 0 && !x.deadlocked {
+			x.aborting.Store(true)
+			time.Sleep(x.Horizon + time.Hour)
+			synctest.Wait()
+		}
 		if x.TeardownDeadlock != "" && x.Violation == nil {
 			x.Violation = fmt.Errorf("deadlock: after the controlled part of the execution a goroutine waited for a mutex that was never released: %s", x.TeardownDeadlock)
 		}
@@ -890,7 +913,7 @@ func stack() string {
 // ReportPanic lets a harness thread convert a panic of the code under test
 // into a violation (instead of crashing the process).
 func (x *Exec) ReportPanic() {
-	if r := recover(); r != nil {
+	if r := recover(); r != nil && !x.aborting.Load() {
 		x.mu.Lock()
 		if x.Violation == nil {
 			x.Violation = fmt.Errorf("panic in thread: %v\n%s", r, stack())
